@@ -228,13 +228,14 @@ func (p *Processor) ChargingDataCreate(
 		ue.Cdr[chargingSessionId] = cdr
 	}
 	ue.Records = append(ue.Records, cdr)
-	unlock()
 
-	// CDR Transfer
+	// CDR Transfer: the subscriber's CDR file is read while the subscriber is still locked (as the update does),
+	// so that it is not transferred while another request of the subscriber is rewriting it
 	err = cgf.SendCDR(chargingData.SubscriberIdentifier)
 	if err != nil {
 		logger.ChargingdataPostLog.Errorf("Charging gateway fail to send CDR to billing domain %v", err)
 	}
+	unlock()
 
 	logger.ChargingdataPostLog.Infof("Open CDR for UE %s", ueId)
 
